@@ -461,6 +461,129 @@ def leaf_context_case(ctx, case):
                       f'{what}, depth {depth}: in the tree {in_tree}, alone {alone}')
 
 
+def sub_at(node, shape, path):
+    for side in path:
+        node = node.left if side == 0 else node.right
+        shape = shape[side]
+    return node, shape
+
+
+def sub_paths(shape, prefix=()):
+    """every proper sub-position of a shape (leaves included)"""
+    if isinstance(shape, int):
+        return
+    for side in (0, 1):
+        yield prefix + (side,)
+        yield from sub_paths(shape[side], prefix + (side,))
+
+
+def reuse_case(ctx, case):
+    """a second tree is built out of parts of an earlier one (a subtree or leaf that already sits in a tree): the new
+    tree's leaves unlock the new tree"""
+    n, idx, mode = case
+    shape = next(itertools.islice(shapes(n), idx, None))
+    cnt = 0
+    for path in sub_paths(shape):
+        leaves = {}
+        t1 = build_real(shape, leaves)
+        t1.locking_script()
+        for lf in leaves.values():
+            lf.unlocking_script()
+        sub, subshape = sub_at(t1, shape, path)
+        fresh = T.ScriptLeaf.from_code(leaf_script(52))
+        try:
+            if mode == 'left':
+                new, newshape = T.ScriptNode(sub, fresh), (subshape, 52)
+            elif mode == 'right':
+                new, newshape = T.ScriptNode(fresh, sub), (52, subshape)
+            elif mode == 'twice':
+                mid = T.ScriptNode(sub, fresh)
+                mid.locking_script()
+                new, newshape = T.ScriptNode(T.ScriptLeaf.from_code(leaf_script(56)), sub), (56, subshape)
+            else:
+                new = T.make_script_tree_prioritized([T.Script.from_bytes(leaf_script(60)), T.Script.from_bytes(leaf_script(64))], tree=sub)
+                newshape = None
+            lock = new.locking_script().bytes
+        except BaseException as e:
+            ctx.violation({'clause': 'a tree built from parts of an earlier tree', 'how': 'raises', 'mode': mode}, f'shape {shape} part {path}: {e!r}')
+            continue
+        if newshape is not None and lock != ref_commit(newshape)[1]:
+            ctx.violation({'clause': 'root / locking script equals the recomputed merkle root', 'tree': 'built from parts of an earlier tree'},
+                          f'shape {shape} part {path} {mode}')
+        real = {leaf_script(i): i for i in list(range(n)) + [52, 56, 60, 64]}
+        lv = walk_leaves(new) if not isinstance(new, T.ScriptLeaf) else []
+        for leaf in lv:
+            i = real.get(leaf.script.bytes)
+            if i is None:
+                continue
+            cnt += 1
+            unl = leaf.unlocking_script().bytes
+            v, log = run_auth([unl, lock])
+            ctx.ran()
+            ctx.trans()
+            ctx.state(('reuse', n, idx, mode, path, i))
+            ctx.outcome('reuse:%s' % v)
+            if log != [bytes([i])] or v is not own_verdict(i):
+                ctx.violation({'clause': 'every leaf of a tree built from parts of an earlier tree unlocks the new tree', 'mode': mode},
+                              f'shape {shape} part {path} leaf {i}: verdict {v!r} recorder {log}')
+            if newshape is not None and unl != items_to_witness(ref_proof(newshape, i)):
+                ctx.violation({'clause': 'unlocking script = sibling commitments and scripts from the leaf up', 'tree': 'built from parts of an earlier tree'},
+                              f'shape {shape} part {path} {mode} leaf {i}')
+        try:
+            t2 = T.ScriptNode.unpack(new.pack())
+            ok = t2.root() == new.root() and [l.unlocking_script().bytes for l in walk_leaves(t2)] == [l.unlocking_script().bytes for l in lv]
+        except BaseException:
+            ok = False
+        if not ok:
+            ctx.violation({'clause': 'pack/unpack preserves root and unlocking scripts', 'tree': 'built from parts of an earlier tree'},
+                          f'shape {shape} part {path} {mode}')
+    ctx.evaluations += max(cnt - 1, 0)
+
+
+def depth_of(shape, target, d=0):
+    if isinstance(shape, int):
+        return d if shape == target else None
+    for side in (0, 1):
+        r = depth_of(shape[side], target, d + 1)
+        if r is not None:
+            return r
+    return None
+
+
+def limit_case(ctx, case):
+    """the embedder's call-stack limit set around the depth of the leaf: the tree costs one nesting level per merkle level,
+    as the reference interpreter (one EVAL per level) says - no more"""
+    n, idx = case
+    shape = next(itertools.islice(shapes(n), idx, None))
+    leaves = {}
+    tree = build_real(shape, leaves)
+    lock = tree.locking_script().bytes
+    cnt = 0
+    for i, leaf in sorted(leaves.items()):
+        d = depth_of(shape, i)
+        unl = leaf.unlocking_script().bytes
+        for k in range(0, d + 3):
+            cnt += 1
+            rec = Recorder()
+            try:
+                v = F.run_auth_scripts([unl, lock], {}, {CID: rec}, stack_max_items=1024, stack_max_item_size=8192, callstack_limit=k)
+            except BaseException as e:
+                v = e
+            rec2 = Recorder()
+            rv, _ = ref_auth([unl, lock], limits=(1024, 8192, k), contracts={CID: rec2})
+            ctx.ran(2)
+            ctx.trans(d)
+            ctx.state(('limit', n, idx, i, k))
+            ctx.outcome('limit:%s' % v)
+            if type(rv) is bool and (rv is not v or rec.log != rec2.log):
+                ctx.violation({'clause': 'the verdict is the leaf script\'s own verdict', 'leaf': 'call-stack limit near the leaf depth'},
+                              f'shape {shape} leaf {i} (depth {d}) call-stack limit {k}: verdict {v!r} recorder {rec.log}, reference {rv!r} {rec2.log}')
+            if k >= d + 1 and (v is not own_verdict(i) or rec.log != [bytes([i])]):
+                ctx.violation({'clause': 'the verdict is the leaf script\'s own verdict', 'leaf': 'call-stack limit above the leaf depth'},
+                              f'shape {shape} leaf {i} (depth {d}) call-stack limit {k}: verdict {v!r} recorder {rec.log}')
+    ctx.evaluations += max(cnt - 1, 0)
+
+
 def builder_case(ctx, n):
     cnt = 0
     srcs = lambda: [T.Script.from_bytes(leaf_script(i)) for i in range(n)]
@@ -574,6 +697,11 @@ def blocks(tier, seed):
               'leaf looping {1,100,120,124..127} times x depth 0..8 of a comb tree', nshards=32),
         Block('leaf_sizes', [(sz, n, pos) for sz in LEAF_SIZES for n in (1, 2, 3) for pos in range(n)], leaf_size_case,
               'leaf script lengths %s x trees of 1..3 leaves x position, through the tree classes and both builders' % (LEAF_SIZES,), nshards=32),
+        Block('trees_from_parts_of_earlier_trees', [(n, idx, m) for n in range(2, (5 if q else 6) + 1) for idx in range(catalan(n - 1))
+                                                    for m in ('left', 'right', 'twice', 'prioritized')], reuse_case,
+              'every shape with 2..%d leaves x every sub-position reused x {left, right, reused twice, prioritized(tree=)}' % (5 if q else 6), nshards=32),
+        Block('call_stack_limit_near_leaf_depth', [(n, idx) for n in range(2, (6 if q else 7) + 1) for idx in range(catalan(n - 1))], limit_case,
+              'every shape with 2..%d leaves x every leaf x call-stack limit 0..depth+2, against the reference interpreter' % (6 if q else 7), nshards=32),
         Block('builders', list(range(1, bmax + 1)), builder_case,
               'prioritized / balanced tree and merklized-script builders for every leaf count 1..%d, every leaf incl. fillers' % bmax,
               nshards=bmax),
